@@ -1,5 +1,5 @@
 (* Reader/printer between x86-64 `Code` values (Rust Debug shape) and Model/X86.xcode. *)
-From Coq Require Import List ZArith NArith String Bool.
+From Coq Require Import List ZArith NArith String Ascii Bool.
 From SCC Require Import Base.Sexp Model.X86.
 Import ListNotations.
 Open Scope string_scope.
@@ -89,3 +89,23 @@ Fixpoint somes {X} (l : list (option X)) : list X :=
   match l with [] => [] | Some x :: r => x :: somes r | None :: r => somes r end.
 Definition g_xcodes (x : sexp) : option (list xcode) :=
   match x with L l => do cs <- omap g_xcode l; Some (somes cs) | _ => None end.
+
+(* the implementation's own statement markers: every statement's code starts with a COMMENT that is
+   neither a '#'-sub-comment nor one of the fixed routine/branch comments; such a comment is kept
+   as the pseudo-label "#s" (labels are no-ops of size 0) *)
+Definition fixed_comments : list string :=
+  ["else branch"; "then branch"; "asmsyntax=nasm"; "setup"; "save registers"; "reserve space for register spills";
+   "initialize heap pointer"; "initialize free pointer"; "move parameters into place"; "actual code";
+   "free space for register spills"; "restore registers"].
+Definition is_statement_comment (c : string) : bool :=
+  match c with
+  | String "#"%char _ => false
+  | _ => negb (existsb (String.eqb c) fixed_comments)
+  end.
+Definition g_xcode_s (x : sexp) : option (option xcode) :=
+  match x with
+  | L [A "COMMENT"; Q c] => Some (if is_statement_comment c then Some (LAB ("#s" ++ c)) else None)
+  | _ => g_xcode x
+  end.
+Definition g_xcodes_s (x : sexp) : option (list xcode) :=
+  match x with L l => do cs <- omap g_xcode_s l; Some (somes cs) | _ => None end.
